@@ -116,13 +116,14 @@ Definition term_f (n : nat) (idx : str) : str := lit "solved_values(" ++ dec n +
 
 (* for match in reversed(list(finditer)): code = code[:start] + variable + code[end:]     (None = KeyError: unknown name) *)
 Definition splice (code : str) (st en : nat) (repl : str) : str := firstn st code ++ repl ++ skipn en code.
+Definition rewrite_step (names : list str) (acc : option str) (m : nat * nat * str * str) : option str :=
+  let '(st, en, n, i) := m in
+  match acc, number_of names n with
+  | Some code, Some k => Some (splice code st en (term_f k i))
+  | _, _ => None
+  end.
 Definition rewrite (names : list str) (eq : str) : option str :=
-  fold_left (fun acc m => let '(st, en, n, i) := m in
-                          match acc, number_of names n with
-                          | Some code, Some k => Some (splice code st en (term_f k i))
-                          | _, _ => None
-                          end)
-            (rev (spans 0 (fst (segments eq)))) (Some eq).
+  fold_left (rewrite_step names) (rev (spans 0 (fst (segments eq)))) (Some eq).
 
 (* the same result produced in one pass from left to right (proved equal to `rewrite` in FTextFacts.v) *)
 Fixpoint stream (names : list str) (sg : list seg) (tl : str) : option str :=
